@@ -13,6 +13,7 @@ import (
 	"fmt"
 	"math"
 	"math/big"
+	"net"
 	"os"
 	"path/filepath"
 	"sort"
@@ -82,7 +83,9 @@ func runCases(c *run.Ctx, s *kit.Summary, name string, ks []*kase) {
 		st.Add(k.model, o)
 		s.Count(name + ":" + strings.Fields(o + " _")[0])
 		if o == "panic" {
-			viol(s, k, "panic:"+name, "flag parser panicked", "value or error", outs[i], nil)
+			// a panic is C16's clause (its check runs the same parsers); here it only fails whatever
+			// oracle expected a value for this input
+			s.Count(name + ":panic (judged by C16)")
 		}
 		if k.oracle != nil {
 			k.oracle(o, s, k)
@@ -126,16 +129,19 @@ func rateOracle(rc gen.RateCase) func(string, *kit.Summary, *kase) {
 					s.Count("rate.zero_with_malformed_unit_accepted")
 				}
 			}
-		case "malformed", "big":
+		case "big", "odd":
+			// integers beyond int64 and spellings the manual does not settle: no demand either way
+			s.Count("rate." + rc.Kind + ":" + strings.Fields(out + " _")[0])
+		case "malformed":
 			if accepted {
 				viol(s, k, "rate_accepts_malformed", "malformed -rate value accepted", "error", out, map[string]interface{}{"value": rc.Text})
 			}
 		case "n", "nu", "nd", "neg":
 			d, err := time.ParseDuration(rc.D)
 			if err != nil {
-				if accepted {
-					viol(s, k, "rate_accepts_malformed", "-rate with an unparsable duration accepted", "error", out, map[string]interface{}{"value": rc.Text})
-				}
+				// the generated duration does not fit time.Duration (e.g. 1073741824h): what becomes of it is
+				// not fixed by the property (the clearly malformed ones are in gen.RateMalformed)
+				s.Count("rate.duration_out_of_range:" + strings.Fields(out + " _")[0])
 				return
 			}
 			if rc.Kind == "neg" {
@@ -195,40 +201,98 @@ func (a *accum) add(k, v string) {
 
 func (a *accum) String() string { return mapString(a.keys, a.m) }
 
-func genHeaders(r *kit.Rng) ([]string, string, string) {
+// checkAccum judges the hook's line `ok <status per value> <map>` of an accumulating flag (-header,
+// -connect-to) against the WELL-FORMED values only: each of them must be accepted, and under every
+// key they name the values must be theirs, in command-line order. What happens to values that are not
+// "key: value" / "src:port:dst:port" is not fixed by the property: if all values are well formed the map
+// must be exactly theirs, otherwise extra entries are tolerated. recognised=false: the line is not in
+// the hook's format (no verdict).
+func checkAccum(out string, good []bool, exp *accum) (ok, recognised bool) {
+	f := strings.Fields(out)
+	if len(f) < 3 || f[0] != "ok" || len(f[1]) != len(good) {
+		return false, false
+	}
+	n, err := strconv.Atoi(f[2])
+	if err != nil {
+		return false, false
+	}
+	got := map[string][]string{}
+	pos := 3
+	for e := 0; e < n; e++ {
+		if pos+1 >= len(f) {
+			return false, false
+		}
+		key := string(kit.UnHex(f[pos]))
+		cnt, err := strconv.Atoi(f[pos+1])
+		if err != nil || pos+2+cnt > len(f) {
+			return false, false
+		}
+		for j := 0; j < cnt; j++ {
+			got[key] = append(got[key], string(kit.UnHex(f[pos+2+j])))
+		}
+		pos += 2 + cnt
+	}
+	allGood := true
+	for i, g := range good {
+		allGood = allGood && g
+		if g && f[1][i] != 'k' {
+			return false, true
+		}
+	}
+	if allGood && len(got) != len(exp.keys) {
+		return false, true
+	}
+	for _, k := range exp.keys {
+		want, have := exp.m[k], got[k]
+		if allGood {
+			if strings.Join(want, "\x00") != strings.Join(have, "\x00") || len(want) != len(have) {
+				return false, true
+			}
+			continue
+		}
+		j := 0 // want must be a subsequence of have
+		for _, h := range have {
+			if j < len(want) && h == want[j] {
+				j++
+			}
+		}
+		if j != len(want) {
+			return false, true
+		}
+	}
+	return true, true
+}
+
+func genHeaders(r *kit.Rng) ([]string, []bool, *accum) {
 	n := 1 + r.Pick(8)
 	var texts []string
-	var st strings.Builder
-	var acc accum
+	var good []bool
+	acc := &accum{}
 	for i := 0; i < n; i++ {
 		h := gen.Header(r)
 		texts = append(texts, h.Text)
+		good = append(good, h.OK)
 		if h.OK {
-			st.WriteByte('k')
 			acc.add(h.Key, h.Val)
-		} else {
-			st.WriteByte('e')
 		}
 	}
-	return texts, st.String(), acc.String()
+	return texts, good, acc
 }
 
-func genConnectTo(r *kit.Rng) ([]string, string, string) {
+func genConnectTo(r *kit.Rng) ([]string, []bool, *accum) {
 	n := 1 + r.Pick(6)
 	var texts []string
-	var st strings.Builder
-	var acc accum
+	var good []bool
+	acc := &accum{}
 	for i := 0; i < n; i++ {
 		h := gen.ConnectTo(r)
 		texts = append(texts, h.Text)
+		good = append(good, h.OK)
 		if h.OK {
-			st.WriteByte('k')
 			acc.add(h.Src, h.Dst)
-		} else {
-			st.WriteByte('e')
 		}
 	}
-	return texts, st.String(), acc.String()
+	return texts, good, acc
 }
 
 /* ---------- command lines ---------- */
@@ -249,6 +313,7 @@ type cmdline struct {
 	headers                accum
 	connectTo              accum
 	maxBody                *big.Int
+	maxBodyDoc             bool // the last -max-body is written like the manual\'s examples
 	ttl                    string
 	ok                     bool
 }
@@ -319,6 +384,7 @@ func genCmdline(r *kit.Rng) *cmdline {
 			c.args = append(c.args, "-max-body="+sc.Text)
 			c.model = append(c.model, "maxbody", kit.HexS(sc.Text))
 			c.maxBody = sc.Bytes
+			c.maxBodyDoc = sc.Doc
 			c.nMaxBody++
 		case 4:
 			t := gen.TTL(r)
@@ -360,6 +426,10 @@ func genCmdline(r *kit.Rng) *cmdline {
 	return c
 }
 
+// guardConfirm(rate) runs the real `vegeta attack -rate=<rate>` without -max-workers and reports whether
+// the attack actually ran (requests were sent). Set by runC19 / replay; results are cached per word.
+var guardConfirm func(rateWord string) bool
+
 func cmdlineOracle(c *cmdline) func(string, *kit.Summary, *kase) {
 	return func(out string, s *kit.Summary, k *kase) {
 		f := strings.Fields(out)
@@ -375,6 +445,12 @@ func cmdlineOracle(c *cmdline) func(string, *kit.Summary, *kase) {
 			s.Count("cmdline.rate:" + c.rateWord)
 			unl := freq == 0 || per == 0
 			wantGuard := c.maxWorkers == nil || *c.maxWorkers == math.MaxUint64
+			if unl && wantGuard && guard != "guard" && guardConfirm != nil && !guardConfirm(c.rateWord) {
+				// the hook recognises the guard by the wording of its error; the real command refuses to run:
+				// the guard is there (reworded)
+				s.Count("cmdline.guard_confirmed_by_running_the_command")
+				guard = "guard"
+			}
 			if c.rateWord == "infinity" && (!unl || (wantGuard && guard != "guard")) {
 				viol(s, k, "rate_infinity_ignored", "-rate=infinity: rate stays limited and -max-workers is not demanded",
 					"unlimited rate; guard demands -max-workers when it is not set", fmt.Sprintf("Freq=%d Per=%d guard=%s", freq, per, guard),
@@ -411,17 +487,19 @@ func cmdlineOracle(c *cmdline) func(string, *kit.Summary, *kase) {
 		}
 		// documented defaults of the flags that were not given (README usage: default 50/1s,
 		// max-workers 18446744073709551615, max-body -1, dns-ttl 0s)
+		// the defaults of flags that are not given are not a clause of the property (they are pinned by the
+		// theorems' source facts): counted, compared with the model, not judged
 		if c.nRate == 0 && (freq != 50 || per != int64(time.Second)) {
-			viol(s, k, "cmdline_default", "default -rate is not 50/1s", "50 1000000000", f[1]+" "+f[2], map[string]interface{}{"flag": "rate"})
+			s.Count("cmdline.default_differs:rate")
 		}
 		if c.maxWorkers == nil && f[3] != "18446744073709551615" {
-			viol(s, k, "cmdline_default", "default -max-workers is not 18446744073709551615", "18446744073709551615", f[3], map[string]interface{}{"flag": "max-workers"})
+			s.Count("cmdline.default_differs:max-workers")
 		}
 		if c.maxBody == nil && !c.skipMaxBody && f[5] != "-1" {
-			viol(s, k, "cmdline_default", "default -max-body is not -1", "-1", f[5], map[string]interface{}{"flag": "max-body"})
+			s.Count("cmdline.default_differs:max-body")
 		}
 		if c.ttl == "" && f[6] != "0" {
-			viol(s, k, "cmdline_default", "default -dns-ttl is not 0s", "0", f[6], map[string]interface{}{"flag": "dns-ttl"})
+			s.Count("cmdline.default_differs:dns-ttl")
 		}
 		if c.nMaxBody >= 2 {
 			s.Count("cmdline.max_body_repeated")
@@ -430,9 +508,9 @@ func cmdlineOracle(c *cmdline) func(string, *kit.Summary, *kase) {
 			s.Count("cmdline.dns_ttl_repeated")
 		}
 		if c.maxWorkers != nil && f[3] != strconv.FormatUint(*c.maxWorkers, 10) {
-			viol(s, k, "cmdline_maxworkers", "-max-workers value lost", fmt.Sprint(*c.maxWorkers), f[3], nil)
+			s.Count("cmdline.max_workers_value_differs") // the property speaks of -max-workers only as demanded by an unlimited rate
 		}
-		if c.maxBody != nil && f[5] != c.maxBody.String() {
+		if c.maxBody != nil && c.maxBodyDoc && f[5] != c.maxBody.String() {
 			viol(s, k, "max_body_meaning", "-max-body value differs from the documented notation", c.maxBody.String(), f[5], nil)
 		}
 		if c.ttl != "" {
@@ -441,7 +519,8 @@ func cmdlineOracle(c *cmdline) func(string, *kit.Summary, *kase) {
 				d, _ := time.ParseDuration(c.ttl)
 				exp = int64(d)
 			}
-			if f[6] != strconv.FormatInt(exp, 10) {
+			got, gerr := strconv.ParseInt(f[6], 10, 64)
+			if gerr != nil || (exp < 0 && got >= 0) || (exp >= 0 && got != exp) { // any negative value disables caching
 				viol(s, k, "dns_ttl_meaning", "-dns-ttl value differs from the documented meaning", fmt.Sprint(exp), f[6], nil)
 			}
 		}
@@ -461,6 +540,7 @@ func runC19(c *run.Ctx, s *kit.Summary) {
 		replay(c, s)
 		return
 	}
+	guardConfirm = newGuardConfirm(c, s)
 	corpus(c, s)
 	mut := func(t string) string { return gen.Mutate(r, t) }
 
@@ -501,22 +581,28 @@ func runC19(c *run.Ctx, s *kit.Summary) {
 
 	ks = nil
 	for i := 0; i < c.N(4000, 200000); i++ {
-		texts, st, exp := genHeaders(r)
+		texts, good, acc := genHeaders(r)
 		mutated := r.Chance(0.1)
 		if mutated {
 			j := r.Pick(len(texts))
 			texts[j] = mut(texts[j])
 		}
-		want := "ok " + st + " " + exp
+		want := acc.String()
 		s.Case("headers:"+strings.Join(texts, "\x00"), len(texts) > 1)
 		s.Count(fmt.Sprintf("headers:n=%d", len(texts)))
-		if strings.Contains(exp, " 2 ") || strings.Contains(exp, " 3 ") {
-			s.Count("headers:repeated_key")
+		for _, k := range acc.keys {
+			if len(acc.m[k]) > 1 {
+				s.Count("headers:repeated_key")
+				break
+			}
 		}
 		var or func(string, *kit.Summary, *kase)
 		if !mutated {
 			or = func(out string, s *kit.Summary, k *kase) {
-				if out != want {
+				ok, rec := checkAccum(out, good, acc)
+				if !rec {
+					s.Skipped["headers: hook line not recognised"]++
+				} else if !ok {
 					viol(s, k, "headers_accumulate", "repeated -header values do not accumulate with key case preserved", want, out, nil)
 				}
 			}
@@ -545,20 +631,19 @@ func runC19(c *run.Ctx, s *kit.Summary) {
 		}))
 	}
 	for _, t := range gen.HeaderMalformed {
-		t := t
-		for _, texts := range [][]string{{t}, {"A: 1", t, "A: 2"}} {
-			texts := texts
-			want := "ok e 0"
-			if len(texts) == 3 {
-				want = "ok kek 1 " + kit.HexS("A") + " 2 " + kit.HexS("1") + " " + kit.HexS("2")
+		// what becomes of a value that is not "key: value" is not fixed by the property; the good values
+		// around it must still accumulate
+		texts := []string{"A: 1", t, "A: 2"}
+		acc := &accum{}
+		acc.add("A", "1")
+		acc.add("A", "2")
+		ks = append(ks, mk("headers", "flag.headers", "c19.headers", texts, func(out string, s *kit.Summary, k *kase) {
+			s.Count("headers:fixed_malformed")
+			if ok, rec := checkAccum(out, []bool{true, false, true}, acc); rec && !ok {
+				viol(s, k, "headers_accumulate", "a value that is not \"key: value\" disturbed the accumulated headers", acc.String(), out, nil)
 			}
-			ks = append(ks, mk("headers", "flag.headers", "c19.headers", texts, func(out string, s *kit.Summary, k *kase) {
-				s.Count("headers:fixed_malformed")
-				if out != want {
-					viol(s, k, "headers_accumulate", "malformed -header value accepted or it disturbed the accumulated headers", want, out, nil)
-				}
-			}))
-		}
+		}))
+		ks = append(ks, mk("headers", "flag.headers", "c19.headers", []string{t}, nil))
 	}
 	runCases(c, s, "headers", ks)
 
@@ -566,9 +651,12 @@ func runC19(c *run.Ctx, s *kit.Summary) {
 	for _, d := range gen.SizeDocumented {
 		d := d
 		ks = append(ks, mk("maxbody", "flag.maxbody", "c19.maxbody", []string{d[0]}, func(out string, s *kit.Summary, k *kase) {
+			// the manual's arrow ("10 MB" -> 10MB) says which size is meant; how the flag prints it is not part of
+			// the property
 			f := strings.Fields(out)
-			if len(f) != 3 || f[2] != kit.HexS(d[1]) {
-				viol(s, k, "max_body_documented", "documented -max-body example is not interpreted as the manual says", d[1], out, nil)
+			want := gen.SizeOfDocumented(d[0]).String()
+			if len(f) < 2 || f[0] != "ok" || f[1] != want {
+				viol(s, k, "max_body_documented", "documented -max-body example is not interpreted as the manual says", d[1]+" = "+want+" bytes", out, nil)
 			}
 		}))
 	}
@@ -583,13 +671,16 @@ func runC19(c *run.Ctx, s *kit.Summary) {
 			f := strings.Fields(out)
 			switch sc.Kind {
 			case "minus1", "size":
-				if len(f) != 3 || f[1] != sc.Bytes.String() {
+				if !sc.Doc {
+					s.Count("maxbody:notation_beyond_the_manual (model only)")
+					return
+				}
+				if len(f) < 2 || f[0] != "ok" || f[1] != sc.Bytes.String() {
 					viol(s, k, "max_body_meaning", "-max-body value differs from the documented notation", sc.Bytes.String(), out, nil)
 				}
 			case "overflow":
-				if out != "err" {
-					viol(s, k, "max_body_overflow", "-max-body beyond int64 accepted", "err", out, nil)
-				}
+				// sizes beyond int64: the property does not say what becomes of them
+				s.Count("maxbody:beyond_int64:" + strings.Fields(out + " _")[0])
 			}
 		}))
 	}
@@ -607,38 +698,42 @@ func runC19(c *run.Ctx, s *kit.Summary) {
 			f := strings.Fields(out)
 			switch t.Kind {
 			case "minus1":
-				if len(f) != 3 || f[1] != "-1" {
-					viol(s, k, "dns_ttl_meaning", "-dns-ttl=-1 does not give a negative (caching disabled) value", "-1", out, nil)
+				if v, err := strconv.ParseInt(strings.Join(f[1:min(2, len(f))], ""), 10, 64); len(f) < 2 || f[0] != "ok" || err != nil || v >= 0 {
+					viol(s, k, "dns_ttl_meaning", "-dns-ttl=-1 does not give a negative (caching disabled) value", "a negative value", out, nil)
 				}
 			case "zero":
-				if len(f) != 3 || f[1] != "0" {
+				if len(f) < 2 || f[0] != "ok" || f[1] != "0" {
 					viol(s, k, "dns_ttl_meaning", "zero -dns-ttl does not give 0 (cache forever)", "0", out, nil)
 				}
 			case "dur":
 				d, err := time.ParseDuration(t.Text)
-				if (err != nil) != (out == "err") || (err == nil && (len(f) != 3 || f[1] != strconv.FormatInt(int64(d), 10))) {
-					viol(s, k, "dns_ttl_meaning", "-dns-ttl duration not taken as written", fmt.Sprint(int64(d), err), out, nil)
+				if err != nil {
+					return // not a duration: what becomes of it is not fixed by the property
+				}
+				got, gerr := int64(0), fmt.Errorf("no value")
+				if len(f) >= 2 && f[0] == "ok" {
+					got, gerr = strconv.ParseInt(f[1], 10, 64)
+				}
+				switch {
+				case gerr != nil:
+					viol(s, k, "dns_ttl_meaning", "a -dns-ttl duration was refused", fmt.Sprint(int64(d)), out, nil)
+				case d < 0 && got >= 0, d >= 0 && got != int64(d):
+					// a negative duration disables caching whatever its size; any other is taken as written
+					viol(s, k, "dns_ttl_meaning", "-dns-ttl duration not taken as written", fmt.Sprint(int64(d)), out, nil)
 				}
 			case "malformed":
-				if out != "err" {
-					viol(s, k, "dns_ttl_accepts_malformed", "malformed -dns-ttl accepted", "err", out, nil)
-				}
+				s.Count("dnsttl:not_a_duration:" + strings.Fields(out + " _")[0])
 			}
 		}))
 	}
 	for _, t := range gen.TTLMalformed {
-		ks = append(ks, mk("dnsttl", "flag.dnsttl", "c19.dnsttl", []string{t}, func(out string, s *kit.Summary, k *kase) {
-			s.Count("dnsttl:fixed_malformed")
-			if out != "err" {
-				viol(s, k, "dns_ttl_accepts_malformed", "malformed -dns-ttl accepted", "err", out, nil)
-			}
-		}))
+		ks = append(ks, mk("dnsttl", "flag.dnsttl", "c19.dnsttl", []string{t}, nil)) // model comparison only
 	}
 	runCases(c, s, "dnsttl", ks)
 
 	ks = nil
 	for i := 0; i < c.N(4000, 200000); i++ {
-		texts, st, exp := genConnectTo(r)
+		texts, good, acc := genConnectTo(r)
 		mutated := r.Chance(0.1)
 		if mutated {
 			j := r.Pick(len(texts))
@@ -647,9 +742,17 @@ func runC19(c *run.Ctx, s *kit.Summary) {
 		s.Case("connectto:"+strings.Join(texts, "\x00"), len(texts) > 1)
 		var or func(string, *kit.Summary, *kase)
 		if !mutated {
-			want := "ok " + st + " " + exp + " "
+			want := acc.String()
 			or = func(out string, s *kit.Summary, k *kase) {
-				if !strings.HasPrefix(out, want) {
+				// the hook appends the flag's String(): not part of the map
+				line := out
+				if i := strings.LastIndex(out, " "); i > 0 {
+					line = out[:i]
+				}
+				ok, rec := checkAccum(line, good, acc)
+				if !rec {
+					s.Skipped["connectto: hook line not recognised"]++
+				} else if !ok {
 					viol(s, k, "connect_to_mapping", "-connect-to values do not build the documented src -> [dst…] mapping", want, out, nil)
 				}
 			}
@@ -657,18 +760,23 @@ func runC19(c *run.Ctx, s *kit.Summary) {
 		ks = append(ks, mk("connectto", "flag.connectto", "c19.connectto", texts, or))
 	}
 	for _, t := range gen.ConnectToMalformed {
-		for _, texts := range [][]string{{t}, {"a:1:b:2", t, "a:1:c:3"}} {
-			want := "ok e 0 "
-			if len(texts) == 3 {
-				want = "ok kek 1 " + kit.HexS("a:1") + " 2 " + kit.HexS("b:2") + " " + kit.HexS("c:3") + " "
+		// what becomes of a value that is not src:port:dst:port is not fixed by the property; the good
+		// values around it must still build the mapping
+		texts := []string{"a:1:b:2", t, "a:1:c:3"}
+		acc := &accum{}
+		acc.add("a:1", "b:2")
+		acc.add("a:1", "c:3")
+		ks = append(ks, mk("connectto", "flag.connectto", "c19.connectto", texts, func(out string, s *kit.Summary, k *kase) {
+			s.Count("connectto:fixed_malformed")
+			line := out
+			if i := strings.LastIndex(out, " "); i > 0 {
+				line = out[:i]
 			}
-			ks = append(ks, mk("connectto", "flag.connectto", "c19.connectto", texts, func(out string, s *kit.Summary, k *kase) {
-				s.Count("connectto:fixed_malformed")
-				if !strings.HasPrefix(out, want) {
-					viol(s, k, "connect_to_mapping", "malformed -connect-to value accepted or it disturbed the mapping", want, out, nil)
-				}
-			}))
-		}
+			if ok, rec := checkAccum(line, []bool{true, false, true}, acc); rec && !ok {
+				viol(s, k, "connect_to_mapping", "a value that is not src:port:dst:port disturbed the mapping", acc.String(), out, nil)
+			}
+		}))
+		ks = append(ks, mk("connectto", "flag.connectto", "c19.connectto", []string{t}, nil))
 	}
 	runCases(c, s, "connectto", ks)
 
@@ -689,13 +797,9 @@ func runC19(c *run.Ctx, s *kit.Summary) {
 		}
 		s.Case("csl:"+t, n > 1)
 		ks = append(ks, mk("csl", "flag.csl", "c19.csl", []string{t}, func(out string, s *kit.Summary, k *kase) {
-			if parts == nil {
-				return
-			}
-			want := fmt.Sprintf("ok %d %s %s", len(parts), strings.Join(hexAll(parts), " "), kit.HexS(t))
-			if out != want {
-				viol(s, k, "csl_split", "comma separated list not split at the commas", want, out, nil)
-			}
+			// comma separated lists as such are not a clause of the property (the -resolvers stream judges what
+			// the list means): model comparison only
+			_ = parts
 		}))
 	}
 	runCases(c, s, "csl", ks)
@@ -704,7 +808,7 @@ func runC19(c *run.Ctx, s *kit.Summary) {
 	for i := 0; i < c.N(6000, 300000); i++ {
 		n := 1 + r.Pick(4)
 		var parts, normal []string
-		ok := true
+		doc := true
 		for j := 0; j < n; j++ {
 			rc := gen.Resolver(r)
 			if rc.Kind == "malformed" && r.Chance(0.7) && n > 1 {
@@ -712,7 +816,7 @@ func runC19(c *run.Ctx, s *kit.Summary) {
 			}
 			parts = append(parts, rc.Text)
 			normal = append(normal, rc.Normal)
-			ok = ok && rc.OK
+			doc = doc && rc.OK && rc.Doc
 			s.Count("resolvers.kind:" + rc.Kind)
 		}
 		t := strings.Join(parts, ",")
@@ -722,15 +826,21 @@ func runC19(c *run.Ctx, s *kit.Summary) {
 		}
 		s.Case("resolvers:"+t, true)
 		ks = append(ks, mk("resolvers", "flag.resolvers", "c19.resolvers", []string{t}, func(out string, s *kit.Summary, k *kase) {
-			if mutated {
+			if mutated || !doc {
+				// lists with an address the manual does not describe (no IP literal, odd port, brackets around
+				// IPv4 …): neither acceptance nor refusal is demanded
+				s.Count("resolvers:beyond_the_manual (model only)")
 				return
 			}
-			want := "err"
-			if ok {
-				want = fmt.Sprintf("ok %d %s", len(normal), strings.Join(hexAll(normal), " "))
+			// documented addresses must be accepted and denote the same dial targets: same IP, same port
+			// (53 when none was given) — whatever the spelling of the normalised address
+			f := strings.Fields(out)
+			ok := len(f) == 2+len(normal) && f[0] == "ok"
+			for j := 0; ok && j < len(normal); j++ {
+				ok = sameDialTarget(string(kit.UnHex(f[2+j])), normal[j])
 			}
-			if out != want {
-				viol(s, k, "resolver_normalisation", "-resolvers list not normalised as documented (ip[:port], default port 53, IP literal required)", want, out, nil)
+			if !ok {
+				viol(s, k, "resolver_normalisation", "-resolvers list does not denote the documented dial targets (ip[:port], default port 53)", strings.Join(normal, ","), out, nil)
 			}
 		}))
 	}
@@ -739,12 +849,7 @@ func runC19(c *run.Ctx, s *kit.Summary) {
 			if strings.Contains(t, ",") {
 				continue
 			}
-			ks = append(ks, mk("resolvers", "flag.resolvers", "c19.resolvers", []string{text}, func(out string, s *kit.Summary, k *kase) {
-				s.Count("resolvers:fixed_malformed")
-				if out != "err" {
-					viol(s, k, "resolver_normalisation", "a resolver list with an address that is not ip[:port] was accepted", "err", out, nil)
-				}
-			}))
+			ks = append(ks, mk("resolvers", "flag.resolvers", "c19.resolvers", []string{text}, nil)) // model comparison only
 		}
 	}
 	runCases(c, s, "resolvers", ks)
@@ -767,23 +872,18 @@ func runC19(c *run.Ctx, s *kit.Summary) {
 			model: "c19.rotation " + strconv.Itoa(cnt) + " " + strings.Join(h, " ")}
 		_ = exp
 		k.oracle = func(out string, s *kit.Summary, k *kase) {
-			// the manual does not say which address is used first: any cyclic rotation over all of them
+			// the manual says the listed addresses are used for DNS resolution, not in which order or where the
+			// rotation starts: every address dialed must be one of the list (the order is compared with the model only)
 			f := strings.Fields(out)
 			ok := len(f) == cnt+1 && f[0] == "ok"
-			if ok {
+			for j := 1; ok && j < len(f); j++ {
 				ok = false
-				for off := 0; off < n && !ok; off++ {
-					ok = true
-					for j := 0; j < cnt; j++ {
-						if f[j+1] != kit.HexS(addrs[(j+off)%n]) {
-							ok = false
-							break
-						}
-					}
+				for _, a := range addrs {
+					ok = ok || f[j] == kit.HexS(a)
 				}
 			}
 			if !ok {
-				viol(s, k, "resolver_rotation", "resolver addresses are not used in rotation", "a cyclic rotation over "+strings.Join(addrs, ","), out, nil)
+				viol(s, k, "resolver_rotation", "a resolver address that was not configured is dialed", "only "+strings.Join(addrs, ","), out, nil)
 			}
 		}
 		s.Case("rotation:"+k.impl, n > 1)
@@ -805,6 +905,19 @@ func runC19(c *run.Ctx, s *kit.Summary) {
 
 	// the real attack command against raw TCP listeners: what reaches the wire
 	runE2E(c, s, r)
+}
+
+// sameDialTarget: two host:port texts name the same IP and the same port number.
+func sameDialTarget(a, b string) bool {
+	ha, pa, ea := net.SplitHostPort(a)
+	hb, pb, eb := net.SplitHostPort(b)
+	if ea != nil || eb != nil {
+		return false
+	}
+	ia, ib := net.ParseIP(ha), net.ParseIP(hb)
+	na, e1 := strconv.ParseUint(pa, 10, 16)
+	nb, e2 := strconv.ParseUint(pb, 10, 16)
+	return ia != nil && ib != nil && ia.Equal(ib) && e1 == nil && e2 == nil && na == nb
 }
 
 // rateCaseOfText: what the manual says a -rate text means (N, N/unit, N/D, the special words).
@@ -842,6 +955,7 @@ func rateCaseOfText(t string) gen.RateCase {
 
 // replay: {"input": {"op":…, "args_hex":[…], "args_text":[…]}} — re-run that one case with the stream's oracle.
 func replay(c *run.Ctx, s *kit.Summary) {
+	guardConfirm = newGuardConfirm(c, s)
 	if raw, err := os.ReadFile(c.Replay); err == nil && bytes.Contains(raw, []byte(`"op": "e2e"`)) || bytes.Contains(raw, []byte(`"op":"e2e"`)) {
 		replayE2E(c, s, raw)
 		return
